@@ -13,7 +13,12 @@
 //	event   := m:<api> (main goroutine, result observed) | r:p packet | r:x packet whose handler panics | r:e EOF
 //	script  := p|x|e letters
 //
-// scn output: `res=<ok|closed|other|->,… disc=<ids|-> handled=N panics=N closed=0|1 escaped=0|1`
+//	           cp the context handed to NewMinecraftConn (parent of the connection's context) is cancelled
+//
+// scn output: `res=<ok|closed|other|->,… pre=<n>/<closed> disc=<ids|-> handled=N panics=N closed=0|1 net=0|1 escaped=0|1`
+//
+//	(net: net.Conn.Close was called)
+//
 // par output: `disc=N closed=0|1 later=<r>,<r> okclose=0|1 escaped=0|1`
 //
 //	wac <means> <state> <proto> <kind> <entry>   write after close: connection with protocol <proto> (old = 1.19.4, new = 1.20.2)
@@ -58,6 +63,7 @@ type fakeConn struct {
 	buf     []byte
 	closeCh chan struct{}
 	once    sync.Once
+	parked  atomic.Int64          // number of times Read found nothing buffered and parked
 	failing atomic.Pointer[error] // the error every Write returns from now on (nil: writes succeed)
 	closed  atomic.Bool
 }
@@ -103,6 +109,7 @@ func (f *fakeConn) Read(p []byte) (int, error) {
 			return 0, io.ErrClosedPipe
 		default:
 		}
+		f.parked.Add(1)
 		select {
 		case b, ok := <-f.rd:
 			if !ok {
@@ -158,6 +165,8 @@ type world struct {
 	nextPan  atomic.Bool
 	loopDone chan struct{}
 	panicN   atomic.Int64
+	rdOnce   sync.Once
+	cancelP  context.CancelFunc // cancels the context handed to NewMinecraftConn (the connection's parent context)
 }
 
 type handler struct {
@@ -236,6 +245,9 @@ func (w *world) api(a string) string {
 		e := writeErrOf(a[2:])
 		w.fc.failing.Store(&e)
 		return "-"
+	case "cp":
+		w.cancelP()
+		return "-"
 	case "gc":
 		if !netmc.Closed(w.conn) {
 			_ = netmc.CloseUnknown(w.conn)
@@ -272,7 +284,9 @@ func newWorld(hspecs []string, active string) *world {
 			}
 		}
 	}, funcr.Options{Verbosity: 0})
-	ctx := logr.NewContext(context.Background(), log)
+	pctx, cancelP := context.WithCancel(context.Background())
+	w.cancelP = cancelP
+	ctx := logr.NewContext(pctx, log)
 	conn, readLoop := netmc.NewMinecraftConn(ctx, w.fc, proto.ServerBound, time.Hour, time.Hour, -1, nil)
 	w.conn = conn
 	conn.SetState(state.Play)
@@ -289,7 +303,20 @@ func newWorld(hspecs []string, active string) *world {
 		}()
 		readLoop()
 	}()
+	w.waitParked(0) // the scenario starts with the read loop parked in Read (past its first Closed check)
 	return w
+}
+
+// waitParked returns once the read loop has parked in Read more than n0 times, or has returned.
+func (w *world) waitParked(n0 int64) {
+	for w.fc.parked.Load() <= n0 {
+		select {
+		case <-w.loopDone:
+			return
+		default:
+			time.Sleep(20 * time.Microsecond)
+		}
+	}
 }
 
 var keepAliveFrame = []byte{0x05, 0x00, 0x00, 0x00, 0x00, 0x09}
@@ -310,15 +337,21 @@ func (w *world) feed(ev string) {
 	}
 	switch ev {
 	case "e":
-		close(w.fc.rd)
+		w.closeInput()
 		<-w.loopDone
 	default:
 		if netmc.Closed(w.conn) {
-			<-w.loopDone // the loop is on its way out
+			// Closed by a close (the loop is on its way out) or only reported closed because the parent context was
+			// cancelled (the loop is parked in Read, already past its Closed check).  The model's loop leaves at its
+			// next Closed check without handling anything; end the input so that the parked loop does exactly that.
+			w.closeInput()
+			<-w.loopDone
 			return
 		}
 		pan := ev == "x"
 		w.nextPan.Store(pan)
+		n0 := w.fc.parked.Load()
+		defer w.waitParked(n0) // deterministic: the loop is parked again (or gone) before the scenario goes on
 		w.fc.rd <- append([]byte(nil), keepAliveFrame...)
 		select {
 		case <-w.sig: // handled by a session handler; a panic is then logged by the loop's recover
@@ -334,12 +367,11 @@ func (w *world) feed(ev string) {
 	}
 }
 
+func (w *world) closeInput() { w.rdOnce.Do(func() { close(w.fc.rd) }) }
+
 func (w *world) finish() {
 	if !w.loopGone() {
-		func() {
-			defer func() { _ = recover() }() // rd may already be closed by an `r:e`
-			close(w.fc.rd)
-		}()
+		w.closeInput()
 		<-w.loopDone
 	}
 }
@@ -404,8 +436,8 @@ func runScn(hspecs []string, active string, events []string) string {
 		if r == "" {
 			r = "-"
 		}
-		return fmt.Sprintf("res=%s pre=%s disc=%s handled=%d panics=%d closed=%d escaped=%d", r, pre, d,
-			w.handled.Load(), w.panics.Load(), b2i(netmc.Closed(w.conn)), b2i(w.escaped.Load()))
+		return fmt.Sprintf("res=%s pre=%s disc=%s handled=%d panics=%d closed=%d net=%d escaped=%d", r, pre, d,
+			w.handled.Load(), w.panics.Load(), b2i(netmc.Closed(w.conn)), b2i(w.fc.closed.Load()), b2i(w.escaped.Load()))
 	})
 }
 
@@ -521,8 +553,8 @@ func runWac(means, st, pr, kind, entry string) string {
 
 // ---------- generators ----------
 
-var mainApis = []string{"ck", "cu", "cw", "wp", "wr", "bp", "bl", "fl", "fn", "fnp", "fne", "fnr", "fnc", "fnt", "gc", "wp", "wr", "fl"}
-var pktApis = []string{"ck", "cu", "cw", "wp", "wr", "bp", "bl", "fl", "gc", "fn", "fnr", "fnc"}
+var mainApis = []string{"cp", "ck", "cu", "cw", "wp", "wr", "bp", "bl", "fl", "fn", "fnp", "fne", "fnr", "fnc", "fnt", "gc", "wp", "wr", "fl"}
+var pktApis = []string{"cp", "ck", "cu", "cw", "wp", "wr", "bp", "bl", "fl", "gc", "fn", "fnr", "fnc"}
 var discApis = []string{"gc", "wp", "wr", "bp", "bl", "cw", "fn", "fnr"}
 
 func genApis(r *hx.Rng, pool []string, nh, max int) string {
@@ -596,6 +628,15 @@ func main() {
 		{[]string{"-/-"}, "0", "m:fnt m:wp m:wp m:bp"},
 		{[]string{"-/-"}, "-", "m:fnr m:wp m:wp"},
 		{[]string{"fnr,wp/-"}, "0", "r:p m:wp m:bp"},
+		// the parent context is cancelled before the first close: every close path must still tear down
+		{[]string{"-/-"}, "0", "m:cp m:ck m:ck m:wp"},
+		{[]string{"-/-"}, "0", "m:cp m:cu m:bp"},
+		{[]string{"-/-"}, "0", "m:cp m:cw m:wp m:ck"},
+		{[]string{"-/-"}, "0", "m:cp m:wp m:bl m:fl"},
+		{[]string{"-/-"}, "0", "m:cp r:p r:e m:wp"},
+		{[]string{"-/-"}, "0", "r:p m:cp r:p r:x m:gc"},
+		{[]string{"-/-"}, "0", "m:bp m:fnr m:cp m:fl m:wp"},
+		{[]string{"cp/-"}, "0", "r:p r:p m:ck"},
 		{[]string{"-/ck"}, "0", "m:ck m:wp"}, // Disconnected re-closes its own connection: deadlock
 		{[]string{"-/fl"}, "0", "m:ck m:wp"}, // Disconnected flushes its own (closed) connection: deadlock
 		{[]string{"-/fl"}, "0", "r:p r:e"},   // same, teardown started by the read loop ending
